@@ -38,20 +38,22 @@ def main(tier, args):
     if os.environ.get("VERIF_DEADLINE_S"):
         dl = min(dl, max(5.0, float(os.environ["VERIF_DEADLINE_S"]) - (time.time() - t0) - 5))
     jobs = []
-    SOCK, REENT, CONF = {"C15_VIA_SOCKET": "1"}, {"C15_FOLLOWUP": "1"}, {"C15_CONFIG": "1", "C15_VIA_SOCKET": "1"}
+    SOCK, REENT, CONF, NOSEEN = {"C15_VIA_SOCKET": "1"}, {"C15_FOLLOWUP": "1"}, {"C15_CONFIG": "1", "C15_VIA_SOCKET": "1"}, {"C15_NOSEEN": "1"}
+    RSOCK = {"C15_FOLLOWUP": "1", "C15_VIA_SOCKET": "1"}
     # C15_IDWRAP=1 (default off) adds a lane whose id counter starts at 0xFFFD and that has the op burst = 65536 x {request; cancel}.
     # On the current code it reports (a) dns-lookup-request-returned-id-0: the third lookup gets id 0, the value request() also
     # returns for "refused" (reading question: the lookup still completes once); (b) dns-lookup-isRunning-false-for-pending-lookup
     # after `request(a.b) burst`: when the 16-bit counter comes round to the id of a lookup that is still pending, addRequest()
     # overwrites its entry (dns_request.cpp `requests_[req_id] = req`) and that lookup is never reported. Needs 65536 lookups within
     # the 5 s a lookup can stay pending; kept out of the evidence until a reading decision is made (DESIGN 1.7).
-    idwrap = [("lookups:idwrap-lane", [lk, "epoll", "3", "3", "2"], {"C15_IDWRAP": "1"})] if os.environ.get("C15_IDWRAP") else []
+    idwrap = [("lookups:idwrap-lane", [lk, "epoll", "3", "3", "2"], {"C15_IDWRAP": "1", "C15_NOSEEN": "1"})] if os.environ.get("C15_IDWRAP") else []
     if quick:
         jobs += shards("plain-tail3", pp, "tail", 16, 3)                  # id + every byte string of length <= 3 (16.8 M datagrams); longest jobs first
-        jobs += [("lookups:epoll", [lk, "epoll", "10", "2", "2"]), ("lookups:select", [lk, "select", "10", "2", "2"])]     # fixpoint at depth 9
-        jobs += [("lookups:%s-via-socket-event" % e, [lk, e, "10", "2", "2"], SOCK) for e in ("epoll", "select")]
-        jobs += [("lookups:reentrant-callbacks-lane", [lk, "epoll", "6", "2", "2"], REENT)]
-        jobs += [("lookups:setservers-lane", [lk, "epoll", "6", "2", "2"], CONF)] + idwrap
+        jobs += [("lookups:%s" % e, [lk, e, "10", "2", "2"], NOSEEN) for e in ("epoll", "select")]     # fixpoint at depth 9
+        jobs += [("lookups:%s-via-socket-event" % e, [lk, e, "6", "2", "2"], SOCK) for e in ("epoll", "select")]
+        jobs += [("lookups:reentrant-callbacks-lane", [lk, "epoll", "5", "2", "2"], {"C15_FOLLOWUP": "1", "C15_NOSEEN": "1"}), ("lookups:reentrant-callbacks-after-ignored", [lk, "epoll", "4", "2", "2"], REENT)]
+        jobs += [("lookups:reentrant-callbacks-1server-select-socket", [lk, "select", "5", "2", "1"], RSOCK)]
+        jobs += [("lookups:setservers-lane", [lk, "epoll", "5", "2", "2"], CONF)] + idwrap
         jobs += shards("plain-struct", pp, "struct", 1)
         jobs += shards("plain-struct-sock", pp, "struct", 1, "sock")
         jobs += shards("asan-struct", pa, "struct", 4)
@@ -59,13 +61,15 @@ def main(tier, args):
         jobs += shards("asan-tail2", pa, "tail", 4, 2)                    # id + every byte string of length <= 2
         pair_rule = ""
         tail_rule = "length <=3 (plain build; ASan build: length <=2)"
-        ldepth = "depth 10 (fixpoint expected at 9) with 2 lookups / 2 servers (epoll and select, each with direct delivery and through the socket event), depth 6 in the re-entrant-callback lane and in the setServers lane"
+        ldepth = ("2 lookups / 2 servers: depth 10 (fixpoint expected at 9) with direct delivery, epoll and select, key without the ignored-datagram fields; depth 6 through the socket event, epoll and select; "
+                  "re-entrant-callback lane: epoll, direct, depth 5 without those fields and depth 4 with them; select, socket event, 1 server, depth 5; setServers lane depth 5")
     else:
-        jobs += [("lookups:%s" % e, [lk, e, "12", "2", "2"]) for e in ("epoll", "select")]
-        jobs += [("lookups:%s-via-socket-event" % e, [lk, e, "12", "2", "2"], SOCK) for e in ("epoll", "select")]
-        jobs += [("lookups:reentrant-callbacks-lane", [lk, "epoll", "8", "2", "2"], REENT), ("lookups:reentrant-callbacks-3lookups", [lk, "epoll", "6", "3", "2"], REENT)]
-        jobs += [("lookups:setservers-lane", [lk, "epoll", "8", "2", "2"], CONF)] + idwrap
-        jobs += [("lookups:epoll-3lookups", [lk, "epoll", "8", "3", "2"]), ("lookups:epoll-3servers", [lk, "epoll", "10", "2", "3"], SOCK)]
+        jobs += [("lookups:%s" % e, [lk, e, "12", "2", "2"], NOSEEN) for e in ("epoll", "select")]
+        jobs += [("lookups:%s-via-socket-event" % e, [lk, e, "10", "2", "2"], SOCK) for e in ("epoll", "select")]
+        jobs += [("lookups:reentrant-callbacks-lane", [lk, "epoll", "7", "2", "2"], REENT), ("lookups:reentrant-callbacks-3lookups", [lk, "epoll", "5", "3", "2"], REENT)]
+        jobs += [("lookups:reentrant-callbacks-1server-select-socket", [lk, "select", "8", "2", "1"], RSOCK)]
+        jobs += [("lookups:setservers-lane", [lk, "epoll", "7", "2", "2"], CONF)] + idwrap
+        jobs += [("lookups:epoll-3lookups", [lk, "epoll", "8", "3", "2"], NOSEEN), ("lookups:epoll-3servers", [lk, "epoll", "10", "2", "3"], {"C15_VIA_SOCKET": "1", "C15_NOSEEN": "1"})]
         jobs += shards("plain-struct2", pp, "struct", 8, "pairs")         # + every pair of bytes replaced (4 small bases)
         jobs += shards("asan-struct2", pa, "struct", 16, "pairs")
         jobs += shards("plain-struct-sock", pp, "struct", 2, "sock")
@@ -78,7 +82,8 @@ def main(tier, args):
         jobs += shards("asan-tail3", pa, "tail", 32, 3)
         pair_rule = "; every pair of bytes replaced by those values"
         tail_rule = "length <=3 (both builds)"
-        ldepth = "depth 12 (fixpoint expected) with 2 lookups / 2 servers (epoll and select, each with direct delivery and through the socket event), depth 8 with 3 lookups, depth 10 with 3 servers (socket event), depth 8 / 6 (3 lookups) in the re-entrant-callback lane, depth 8 in the setServers lane"
+        ldepth = ("2 lookups / 2 servers: depth 12 (fixpoint expected) with direct delivery, epoll and select, key without the ignored-datagram fields; depth 10 through the socket event; depth 8 with 3 lookups and depth 10 with 3 servers (socket event) without those fields; "
+                  "re-entrant-callback lane depth 7 / 5 (3 lookups) / 8 (select, socket event, 1 server); setServers lane depth 7")
     if args.only:
         jobs = [j for j in jobs if j[0].split(":")[0] == args.only or j[0] == args.only]
     res = vf.Result(); os.makedirs(vf.BUILD + "/C15", exist_ok=True); log = open(vf.BUILD + "/C15/log.txt", "w")
@@ -86,8 +91,9 @@ def main(tier, args):
     vf.run_procs(res, jobs, env=env, log=log, jobs=vf.NCPU + 6)    # the 16 long id+string shards start first; the short jobs run beside them
     vf.finish(PID, tier, res, t0,
               rule="(I, reply parser) a real lookup is outstanding on a real DnsRequest (id 0xA5A5); every datagram is delivered in a worker child on a 256 KiB thread stack, through the protected onUdpRecv and - the structured sweeps a second time - "
-                   "through the real receive path UdpSocket::onSocketEvent(kReadEvent) with the executable's own recvfrom() playing the kernel (hands out the datagram; the rest of the 4096-byte receive buffer keeps the paint and is ASan-poisoned; "
-                   "also: zero-length datagram, recvfrom fails), twice on equal object states: dead stack painted 0x00 / 0xA5 (48 KiB) immediately before the call (second paint 0x01 for the id+string sweep once id and flags are present); g++ -O1 plain build and ASan+UBSan build%s. "
+                   "through the real receive path UdpSocket::onSocketEvent(kReadEvent) with the executable's own recvfrom() playing the kernel (copies at most the offered length and returns that - or, when called with MSG_TRUNC, the real datagram length; "
+                   "the rest of the 4096-byte receive buffer keeps the paint and is ASan-poisoned; also: zero-length datagram, recvfrom fails with EAGAIN / EINTR / ECONNREFUSED; datagrams of 4097 / 5000 / 6000 bytes = MAX + a tail, with unchanged / inflated answer count, "
+                   "a CNAME pointer behind byte 4096, a last record whose rdata reaches the real end - judged as the prefix that the offered buffer holds), twice on equal object states: dead stack painted 0x00 / 0xA5 (48 KiB) immediately before the call (second paint 0x01 for the id+string sweep once id and flags are present); g++ -O1 plain build and ASan+UBSan build%s. "
                    "Datagrams: 6 base replies (A; CNAME+A with compression; TXT+A; 3A+NS; BIG = 633 bytes, records behind offset 512, CNAME with a 63-byte label and a pointer to offset 533; MAX = 4096 bytes, 62 records, pointer to offset 3000) "
                    "x {every truncation offset; qd/an/ns/ar count in {0,1,real,real+1,255,65535}; every compression pointer (MAX: two of them) -> every offset 0..len+1 (BIG/MAX also 8191, 16383), every loop of two and every loop of three; "
                    "every byte (MAX: the 120 bytes of header, question, start of the TXT record, planted name, CNAME record, first and last A record) replaced by each of {00,01,3f,40,c0,ff}%s}; CNAME reached through a chain of k pointers ending in a label / closing a cycle, "
@@ -96,14 +102,15 @@ def main(tier, args):
                    "every reported address/name is in the set an independent generous decoder (RFC 1035 + readings L1-L6, common.h) extracts and not more records than it can frame; the 6 intact base replies are decoded exactly as encoded; "
                    "a datagram ignored under both paints leaves the lookup intact: isRunning stays true and the intact reply A delivered next completes it once with 1.2.3.4, its duplicate is ignored (every case of the structured sweeps, "
                    "every 8th ignored datagram of the length-3 id+string sweep); agreement with a strict decoder is recorded as outcome. "
-                   "(H, lookups) BFS over histories of request(domain)/cancel/reply(lookup, queried server, kind in ok|servfail|nxdomain|formerr|query|unknown-id|ok-wrong-question|ok-cut-inside-the-answer|ok-whose-answer-name-is-a-pointer-loop)/tick(+1 s virtual, one loop pass), %s; "
-                   "socket-event lanes: replies enter through UdpSocket::onSocketEvent + recvfrom() only while the read event is enabled (completion callbacks run nested in the receive callback), plus readable events with a zero-length datagram / failing recvfrom; "
-                   "re-entrant-callback lane: + request whose callback issues a follow-up lookup, request whose callback cancels another lookup that is still pending (never itself), tick(+5 s); "
-                   "setServers lane (also through the socket event): DnsRequest(loop) + setDnsIPAddresses, op setServers(k), k in 0..2, also while lookups are pending, tick(+5 s); "
+                   "(H, lookups) BFS over histories of request(domain)/cancel/reply(lookup, queried server, kind in ok|servfail|nxdomain|formerr|query|unknown-id|ok-wrong-question|ok-cut-inside-the-answer|ok-whose-answer-name-is-a-pointer-loop|ok-with-one-CNAME-and-one-A-then-cut)/tick(+1 s virtual, one loop pass), %s; "
+                   "socket-event lanes: replies enter through UdpSocket::onSocketEvent + recvfrom() only while the read event is enabled (completion callbacks run nested in the receive callback), plus readable events with a zero-length datagram / failing recvfrom (errno cycling) and a 5000-byte reply whose answers go on behind byte 4096 (judged as its stored prefix: ignored); "
+                   "outside the fixpoint lanes the class of the last ignored datagram (per pending lookup: non-reply / undecodable; global: unknown id / event without datagram) is model-only state, so that timeouts, cancels, error replies and sibling lookups AFTER an ignored datagram are explored; "
+                   "re-entrant-callback lane: + request whose callback issues a follow-up lookup, request whose callback cancels another lookup that is still pending (never itself), request with an EMPTY callback (completion observed through isRunning), tick(+5 s); "
+                   "setServers lane (also through the socket event): DnsRequest(loop) + setDnsIPAddresses, op setServers(k), k in 0..2, also while lookups are pending, op sendFails(mask in none|first server|all): sendto() to those servers returns -1/ENETUNREACH (model unchanged: the lookup is pending and ends by reply or timeout), tick(+5 s); "
                    "replies stay enabled (duplicates, any order); canonical state = lookup table + response counts + timeout wheel + timer/socket-event enabled + id counter + server list + model (incl. pending callback obligations); "
                    "oracle after every op: callbacks exactly as the reference model says (once, first acceptable reply / error status / timeout at tick 5, never after cancel - also when the cancel came from another lookup's callback in the same timeout slot -, "
-                   "nothing for ignored or undecodable datagrams, which also leave the lookup pending), isRunning() = pending, cancel() result, one well-formed query per configured server to that server's address, "
-                   "request() with no server: id 0, nothing sent, never a callback; the socket's read event is enabled whenever the model has a pending lookup"
+                   "nothing for ignored or undecodable datagrams, which also leave the lookup pending), a success carries exactly the address of the accepted reply and no name (a_vec and cname_vec are read), an error status carries nothing, isRunning() = pending, cancel() result, one well-formed query attempted per configured server to that server's address, "
+                   "request() with no server: id 0, nothing sent, never a callback; the socket's read event is enabled whenever the model has a pending lookup; after the DnsRequest is deleted the loop runs at +0 s, +1 s and +6 s: no callback, no use of freed memory"
                    % ("" if quick else "; the structured sweeps also under valgrind memcheck (error counter sampled per datagram)", pair_rule, tail_rule, ldepth),
               assumptions=["a zero-length datagram reaches the parser only if UdpSocket::onSocketEvent forwards it (checked in the socket-event sweeps: it must not produce a callback); onUdpRecv itself is not fed zero-length datagrams",
                            "readings L1-L6 (common.h): class not examined, RDLENGTH of A/CNAME not cross-checked, label bytes 0x40-0xbf taken as lengths, labels compared up to a NUL, trailing dots ignored, "
